@@ -36,8 +36,19 @@ ASSUMPTIONS = c03.ASSUMPTIONS + [
 DOCUMENTED = ("KeyError", "ValueError", "TypeError", "AASConstraintViolation")
 
 
+GEN_SELECT = os.path.join(C.LEAN_DIR, "Basyx", "Gen", "Select.lean")
+
+
+def translate_select(ctx: C.Ctx) -> List[str]:
+    """the decision table of `_select_decoder` / `_select_encoder` and the mode flags of the decoder / encoder classes"""
+    from translate import select_tables as S
+    data = S.build(C.REPO)
+    c03.write_if_changed(GEN_SELECT, S.emit_lean(data))
+    return [f"unrecognised source construct: {u}" for u in data["unrecognised"]]
+
+
 def translate(ctx: C.Ctx) -> List[str]:
-    return c03.translate(ctx) + c04.translate(ctx)
+    return c03.translate(ctx) + c04.translate(ctx) + translate_select(ctx)
 
 
 # ----------------------------------------------------------------------------------------------- JSON damage
@@ -474,6 +485,8 @@ def check_case(case: dict) -> Optional[C.Failing]:
         damaged_id = objs_id_at(objs, path)
         text = json.dumps(doc)
         reader = lambda fs: read_json(json.loads(text), fs)  # noqa: E731
+        from basyx.aas.adapter.json import read_aas_json_file as _rj
+        reader_s = lambda fs: list(_rj(io.StringIO(text), failsafe=fs, stripped=True))  # noqa: E731
     else:
         from lxml import etree
         root, damaged_id, op = damage_xml(objs, rng, tuple(case["sweep"]) if "sweep" in case else None)
@@ -485,6 +498,7 @@ def check_case(case: dict) -> Optional[C.Failing]:
         path = []
         from basyx.aas.adapter.xml import read_aas_xml_file
         reader = lambda fs: list(read_aas_xml_file(io.BytesIO(data), failsafe=fs))  # noqa: E731
+        reader_s = lambda fs: list(read_aas_xml_file(io.BytesIO(data), failsafe=fs, stripped=True))  # noqa: E731
     tag = f"{fmt}:{op}"
     try:
         got = reader(True)
@@ -513,6 +527,26 @@ def check_case(case: dict) -> Optional[C.Failing]:
     except Exception as e:
         if not any(c.__name__ in DOCUMENTED for c in type(e).__mro__):
             return C.Failing(f"strict:{fmt}:undocumented:{type(e).__name__}", f"strict {fmt} reader raised {type(e).__name__} ('{op}' at {path})",
+                             dict(case, op=op, path=list(path)))
+    # (round 6) the same two clauses for the readers of stripped objects: `failsafe=` means the same whatever `stripped=` is
+    try:
+        got_s = reader_s(True)
+    except Exception as e:
+        return C.Failing(f"failsafe:{fmt}:stripped:raises:{root_cause(e)}", f"failsafe {fmt} reader with stripped=True raised {type(e).__name__} on a "
+                         f"document damaged by '{op}' at {path}: {str(e)[:120]}", dict(case, op=op, path=list(path)))
+    ids_s = {o.id for o in got_s}
+    for oid in want:
+        if oid != damaged_id and oid not in ids_s:
+            return C.Failing(f"failsafe:{fmt}:stripped:undamaged-lost", f"undamaged identifiable {oid!r} missing from the stripped failsafe read after "
+                             f"'{op}' on {damaged_id!r}", dict(case, op=op, path=list(path)))
+    try:
+        strict_s = reader_s(False)
+        if sorted(o.id for o in strict_s) != sorted(ids_s):
+            return C.Failing(f"strict:{fmt}:stripped:differs-from-failsafe", f"strict and failsafe stripped reads return different identifiables after "
+                             f"'{op}' at {path}", dict(case, op=op, path=list(path)))
+    except Exception as e:
+        if not any(c.__name__ in DOCUMENTED for c in type(e).__mro__):
+            return C.Failing(f"strict:{fmt}:stripped:undocumented:{type(e).__name__}", f"strict stripped {fmt} reader raised {type(e).__name__} ('{op}' at {path})",
                              dict(case, op=op, path=list(path)))
     return None
 
